@@ -200,6 +200,19 @@ PROPS = {
         "trusted_base": COMMON_TB,
         "assumptions": [],
     },
+    "C20": {
+        "manifest": {
+            "text": "Lean 4 theorems over a model of the ordinals flows' transaction assembly (ord/list.go, bid.go, 2dummies.go) and of Tx.Inscribe / InscribeSpecificOrdinal / ParseInscription: acceptListing(2D)_layout (where seller input/output, buyer and dummy outputs land), seller_signature_survives(_2D) (the SINGLE|ANYONECANPAY|FORKID digest of the one-input listing equals the digest at the seller's new index, via C02.anyonecanpay_independent), ordinal_goes_to_buyer(_2D) and bid_ordinal_goes_to_buyer (first-in-first-out routing of the ordinal's first satoshi), completed_flow_pays_estimated_fee, specific_ordinal_lands_in_inscription. Correspondence: the four real flows (listing/bid x standard/two-dummy) are run with fresh keys over random prices, UTXO sets, fee quotes and scripts; the assembled transaction must equal the model's (unlocking scripts grafted), every input is run through the real interpreter and the Lean interpreter model (executable ECDSA), and the property predicate is evaluated on the implementation's transaction: all inputs accepted, seller output at the committed index, ordinal satoshi owner = buyer script under FIFO, fee left >= quoted fee for the final size. Inscriptions: Inscribe then ParseInscription must return prefix, content type and data (all push-length boundaries, empty included).",
+            "note": "Signing itself (RFC6979 ECDSA) is not modelled: signatures are taken from the implementation and verified by the model. Trusted: Lean kernel + standard axioms, harness/generators/comparer, driver glue, executable crypto modules.",
+            "technique": "Lean 4 proof over hand-written flow model (layout, digest invariance, FIFO routing, fee) + executable interpreter/ECDSA model + differential correspondence check with property predicate",
+        },
+        "generators": ["C20"],
+        "thorough_seeds": 1,
+        "rule": "150/4000 flows (4 kinds; ~25% ending in each documented error class), 200/6000 inscriptions at push-length boundaries, 50/1500 InscribeSpecificOrdinal cases. Non-trivial = completed flow or parsed inscription.",
+        "nontrivial": lambda op, impl: impl.startswith("ok"),
+        "trusted_base": COMMON_TB,
+        "assumptions": ["transaction values below 2^64 (hypotheses hsum/hlt of the FIFO theorems)"],
+    },
     "C05": {
         "manifest": {
             "text": "A complete executable Lean model of the interpreter (apply/Step/executeOpcode/CheckErrorCondition, all ~110 non-signature handlers, script numbers, both eras, P2SH re-entry, policy flags; structural recursion over the parsed opcodes) is compared on every run, program by program, with the real interpreter through a recording Debugger: verdict plus the data, alt and conditional stacks, op count, early-return flag and last-code-separator index after every executed instruction. Lean theorems: the regenerated opcode dispatch table, per-era limits and flag bits are the ones the model is written against (kernel-evaluated on every run), OP_RETURN decision logic per era, disabled/reserved opcode rules, element-size rule, combined-stack-depth invariant over every recorded state, minimal-number-encoding characterisation.",
